@@ -19,7 +19,7 @@ ID = "C09"
 FUNCTIONS = ["pyoak.node:ASTNode.accept", "pyoak.visitor:ASTVisitor.visit", "pyoak.visitor:ASTTransformVisitor._transform_children", "pyoak.visitor:ASTTransformVisitor.generic_visit"]
 ACTIONS = ["descend", "same", "rewrite", "replace", "equal-copy", "remove", "raise"]
 METHOD_SETS = {
-    "own-classes": ["VLeaf", "VSubLeaf", "VStr2", "VMany", "VReq", "VOne", "VPair", "VMixed", "VInh", "VAbAc"],
+    "own-classes": ["VLeaf", "VSubLeaf", "VFalsy", "VStr2", "VMany", "VReq", "VOne", "VPair", "VMixed", "VInh", "VAbAc"],
     "base-class-only": ["VBase"],
     "leaf-class-only": ["VLeaf"],
     "inner-only": ["VMany", "VMixed", "VReq"],
@@ -272,7 +272,8 @@ def make_harness(shapes, method_sets):
 
 
 def spec(tier: str, seed: int) -> Spec:
-    wide = [number(R("VMany", items=(R("VLeaf"), R("VSubLeaf"), R("VLeaf")))), number(R("VMixed", first=R("VLeaf"), items=(R("VLeaf"), R("VLeaf")), one=R("VLeaf"))), number(R("VInh", first=R("VLeaf"), items=(R("VLeaf"),), one=None, extra=R("VMany", items=(R("VLeaf"),))))]
+    wide = [number(R("VMany", items=(R("VFalsy"), R("VLeaf"), R("VFalsy")))), number(R("VMixed", first=R("VFalsy"), items=(R("VFalsy"),), one=R("VFalsy"))), number(R("VReq", child=R("VMany", items=(R("VLeaf"), R("VFalsy"))))),
+            number(R("VMany", items=(R("VLeaf"), R("VSubLeaf"), R("VLeaf")))), number(R("VMixed", first=R("VLeaf"), items=(R("VLeaf"), R("VLeaf")), one=R("VLeaf"))), number(R("VInh", first=R("VLeaf"), items=(R("VLeaf"),), one=None, extra=R("VMany", items=(R("VLeaf"),))))]
     if tier == "quick":
         dense, sparse = all_shapes(5, 3) + wide, all_shapes(6, 3)[422::2]
     else:
